@@ -91,6 +91,7 @@ def primOfAtom : String → Option Prim
   | "string" => some .string | "dstring" => some .dstring | "duration" => some .duration
   | "bytes" => some .bytes | "uuid" => some (.raw 16)
   | "weekday" => some .weekday | "month" => some .month | "fixedoffset" => some .fixedOffset
+  | "varu32" => some .varu32
   | _ => none
 
 partial def tyOfSexp : Sexp → Option Ty
